@@ -20,27 +20,34 @@ func TestVerifC04(t *testing.T) {
 	gin.SetMode(gin.ReleaseMode)
 	dir := t.TempDir()
 	mgr := vC04Manager()
-	var addr string
-	var s *Server
-	var ierr error
-	for try := 0; try < 4; try++ { // the scratch port may be taken between probing and listening
-		addr = vC04FreeAddr()
-		s = &Server{
-			Address: addr, TrustedProxies: vC04TrustedProxies(),
-			ReadTimeout: conf.Duration(20 * time.Second), WriteTimeout: conf.Duration(20 * time.Second),
-			PathConfs: map[string]*conf.Path{
-				"cam1": {Name: "cam1", RecordPath: filepath.Join(dir, "%path/%Y-%m-%d_%H-%M-%S-%f"), RecordFormat: conf.RecordFormatFMP4},
-				"cam2": {Name: "cam2", RecordPath: filepath.Join(dir, "%path/%Y-%m-%d_%H-%M-%S-%f"), RecordFormat: conf.RecordFormatFMP4},
-			},
-			AuthManager: mgr, Parent: test.NilLogger,
+	// two instances: [0] with the trusted proxy 127.0.0.1/32, [1] without trusted proxies (the default)
+	var bases [2]string
+	var ss [2]*Server
+	for inst := 0; inst < 2; inst++ {
+		var s *Server
+		var ierr error
+		for try := 0; try < 4; try++ { // the scratch port may be taken between probing and listening
+			addr := vC04FreeAddr()
+			s = &Server{
+				Address: addr, TrustedProxies: vC04TrustedProxies(inst),
+				ReadTimeout: conf.Duration(20 * time.Second), WriteTimeout: conf.Duration(20 * time.Second),
+				PathConfs: map[string]*conf.Path{
+					"cam1": {Name: "cam1", RecordPath: filepath.Join(dir, "%path/%Y-%m-%d_%H-%M-%S-%f"), RecordFormat: conf.RecordFormatFMP4},
+					"cam2": {Name: "cam2", RecordPath: filepath.Join(dir, "%path/%Y-%m-%d_%H-%M-%S-%f"), RecordFormat: conf.RecordFormatFMP4},
+				},
+				AuthManager: mgr, Parent: test.NilLogger,
+			}
+			if ierr = s.Initialize(); ierr == nil {
+				bases[inst] = "http://" + addr
+				break
+			}
 		}
-		if ierr = s.Initialize(); ierr == nil {
-			break
+		if ierr != nil {
+			t.Fatal(ierr)
 		}
+		defer s.Close()
+		ss[inst] = s
 	}
-	if ierr != nil {
-		t.Fatal(ierr)
-	}
-	defer s.Close()
-	vC04Run(t, vC04Spec{Server: "playback", Base: "http://" + addr, Routes: vC04Routes(s.httpServer.Handler), Share: 18}, mgr)
+	vC04SameRoutes(t, ss[0].httpServer.Handler, ss[1].httpServer.Handler)
+	vC04Run(t, vC04Spec{Server: "playback", Bases: bases, Routes: vC04Routes(ss[0].httpServer.Handler), Share: 18}, mgr)
 }
